@@ -9,7 +9,7 @@ trap 'git -C /repo worktree remove --force "$WT" 2>/dev/null; rm -rf "$OUT"' EXI
 if ! git -C "$WT" apply --check "$P" 2>/dev/null; then echo "PATCH DOES NOT APPLY: $P"; exit 3; fi
 git -C "$WT" apply "$P"
 for id in "$@"; do
-  out=$(cd /verif && VERIF_REPO="$WT" VERIF_OUT_DIR="$OUT" VERIF_SEED=${VERIF_SEED:-7} ./check $id ${TIER:-quick} 2>&1); code=$?
+  out=$(cd /verif && VERIF_REPO="$WT" VERIF_OUT_DIR="$OUT" VERIF_NO_MINIMISE=1 VERIF_SEED=${VERIF_SEED:-7} ./check $id ${TIER:-quick} 2>&1); code=$?
   echo "[$id exit=$code] $(echo "$out" | grep -c '^VIOLATION') violation line(s)"
   echo "$out" | grep "violation signature\|HARNESS" | cut -c1-300 | head -4
 done
